@@ -18,6 +18,7 @@ PC(S, n, key)   == DJ(Par(S, n)[key].v)              \* constant parameter, sign
 PA(S, n, key)   == DAbs(PC(S, n, key))               \* its magnitude
 PFlag(S, n, key) == Par(S, n)[key].v
 Cls(S, n)       == S.comps[n].cls
+HasTable(S, n)  == \E key \in DOMAIN Par(S, n) : Par(S, n)[key].k \in {"t1", "t2"}
 IsDiode(S, n)   == Par(S, n)["type"].v = "diode"
 
 (* Phase configuration [t |-> "none"|"list"|"map", v]                       *)
